@@ -58,5 +58,10 @@ func (l *LabelMatcher) GetLabel() string {
 }
 
 func (l *LabelMatcher) GetVal() string {
+	// Prometheus regex matchers are fully anchored (labels.NewMatcher compiles "^(?:" + v + ")$"),
+	// ClickHouse match() searches: the anchors have to be part of the pattern.
+	if l.Node.Type == labels.MatchRegexp || l.Node.Type == labels.MatchNotRegexp {
+		return "^(?:" + l.Node.Value + ")$"
+	}
 	return l.Node.Value
 }
